@@ -12,8 +12,14 @@ package protocol
 //     before it returns nil; any other accept error is returned (the daemon exits through Main);
 //   - every accepted connection gets a goroutine of its own, counted in the wait group BEFORE it is started (Add precedes go).
 //@ pred r5GRetry(e error) := dyntype(e) == typetag("*net.OpError") && r5GTemporary(e)
+// (round 7) what the server loop returned is recorded (r7TCPServerReturns / r7TCPServerResult) for the goroutine literals that report it (Main$2 of the daemons).
+//@ ghost r7TCPServerReturns int
+//@ ghost r7TCPServerResult error
+//@ ghostgroup r7TCPServerReturns, r7TCPServerResult
 //@ func TCPServer(listener net.Listener, handler TCPHandler, logf lg.AppLogFunc) error
 //@   props C15 C09
+//@   onreturn r7TCPServerReturns := r7TCPServerReturns + 1
+//@   onreturn r7TCPServerResult := result
 //@   requires listener != nil && handler != nil
 //@   ensures[error-only-for-a-fatal-accept-error] result != nil ==> r5GLastAcceptErr != nil && !r5GRetry(r5GLastAcceptErr) && !r5GErrIs(r5GLastAcceptErr, net.ErrClosed)
 //@   ensures[nil-only-for-a-closed-listener] result == nil ==> r5GLastAcceptErr != nil && !r5GRetry(r5GLastAcceptErr) && r5GErrIs(r5GLastAcceptErr, net.ErrClosed)
